@@ -202,6 +202,26 @@ def run(ctx, replay=None):
                         {'k': 'bin', 'op': '+', 'l': gen_jump.s(''), 'r': plus(plus(var('da'), x), y)},
                         {'k': 'bin', 'op': rnd.choice(['==', '!=', '<']), 'l': plus(var('da'), x), 'r': var('da')}])
         cases.append(expr_case(e, g2) if rnd.random() < 0.5 else script_case(e, g2))
+    # a number far outside the datetime range on either side of + gives null (never a host exception)
+    for _ in range(ctx.pick(120, 2000)):
+        da = {'t': 'dt', 'd': rnd.randint(1000, 3600000), 'ms': rnd.randrange(86400000)}
+        big = rnd.choice([1e15, -1e15, 1e300, 3e17, -8.64e15, 2.0 ** 62])
+        g2 = [{'name': 'da', 'val': da}, {'name': 'n', 'val': A.aval(big)}]
+        e = {'k': 'bin', 'op': '+', 'l': var('n'), 'r': var('da')} if rnd.random() < 0.5 else {'k': 'bin', 'op': '+', 'l': var('da'), 'r': var('n')}
+        cases.append(expr_case(e, g2) if rnd.random() < 0.5 else script_case(e, g2))
+    # objects compare by their sorted keys: the order of insertion does not matter
+    for _ in range(ctx.pick(200, 4000)):
+        keys = rnd.sample(['x', 'y', 'a', 'k2', ''], rnd.randint(1, 4))
+        vals = {k: rnd.choice([1, 2, 'v', None, [1]]) for k in keys}
+        oa = {k: vals[k] for k in keys}
+        perm = keys[:]
+        rnd.shuffle(perm)
+        ob = {k: vals[k] for k in perm}
+        if rnd.random() < 0.3 and perm:
+            ob[perm[0]] = rnd.choice([1, 3, 'w'])
+        g2 = [{'name': 'oa', 'val': A.aval(oa)}, {'name': 'ob', 'val': A.aval(ob)}]
+        e = {'k': 'bin', 'op': rnd.choice(['==', '!=', '<', '>=']), 'l': var('oa'), 'r': var('ob')}
+        cases.append(expr_case(e, g2) if rnd.random() < 0.5 else script_case(e, g2))
     # arrays are ordered element by element, the length decides only between a prefix and its extension
     def rarr(d=0):
         return [rnd.choice([0, 1, 2, 3, 'a', None, True]) if d or rnd.random() < 0.85 else rarr(d + 1) for _ in range(rnd.randint(0, 3))]
